@@ -107,6 +107,20 @@ pub fn bases() -> Vec<(&'static str, Base)> {
 		),
 		("parsed enum without symbols", Base::Parsed(r#"{"type":"enum","name":"b.E","symbols":[]}"#)),
 		("built fixed", Base::Built(vec![p(GKind::Fixed("a.b.F".into(), 16))])),
+		(
+			"built record with a field of every primitive kind",
+			Base::Built(vec![
+				p(GKind::Record("a.P".into(), vec![("b".into(), 1), ("f".into(), 2), ("d".into(), 3), ("n".into(), 4), ("l".into(), 5), ("y".into(), 6), ("s".into(), 7), ("i".into(), 8)])),
+				p(GKind::Boolean),
+				p(GKind::Float),
+				p(GKind::Double),
+				p(GKind::Null),
+				GNode { kind: GKind::Long, logical: Some(vmodel::schema::Logical::TimestampMicros) },
+				GNode { kind: GKind::Bytes, logical: Some(vmodel::schema::Logical::Decimal { precision: 5, scale: 2 }) },
+				GNode { kind: GKind::Str, logical: Some(vmodel::schema::Logical::Unknown("x-custom".into())) },
+				p(GKind::Int),
+			]),
+		),
 	]
 }
 
